@@ -107,6 +107,13 @@ def make_run(cfg):
                         except errors.CommunicationError as x:
                             got["a"].append("comm:" + type(x).__name__)
                         p._pyroRelease()
+                    elif ending == "method-exits":
+                        try:
+                            p.quit()
+                            got["a"].append("quit-returned")
+                        except errors.CommunicationError as x:
+                            got["a"].append("comm:" + type(x).__name__)
+                        p._pyroRelease()
                     elif ending == "malformed":
                         sock.sendall(b"PYRO" + b"\xff" * 60)
                         try:
@@ -206,6 +213,9 @@ def make_run(cfg):
             elif outcome not in ("quiescent", "horizon", "hang"):
                 raise HarnessError("C13 ended with %s" % outcome)
             for name, x in w.sch.errors:
+                if ecls == "method-exits" and isinstance(x, SystemExit):
+                    x.__traceback__ = None     # (the harness keeps the exception; a thread that really died would have dropped its frames)
+                    continue       # the worker thread ends with the method's SystemExit (not judged: the statement's list of endings does not name it)
                 V("uncaught-in-thread|%s|%s" % ("worker" if name.startswith("Pyro-Worker") else name.split("-")[0], type(x).__name__), "%r" % x)
             for it in iters:
                 it.proxy = None      # no close_stream traffic from the harness' own garbage collection
@@ -234,7 +244,7 @@ def make_run(cfg):
                     V("server-side-socket-not-closed|%s|%s" % (cfg["server"], ecls), "%r" % open_srv)
                 ts = d.transportServer
                 if cfg["server"] == "thread":
-                    if ts.pool.busy:
+                    if ts.pool.busy and ecls != "method-exits":
                         V("worker-slot-not-released|%s" % ecls, "busy=%r" % ts.pool.busy)
                 else:
                     m = ts.selector.get_map()
@@ -292,6 +302,11 @@ def configs(quick):
                 for linger in (0, 30):
                     out.append({"server": server, "ending": ending, "tracked": 1, "untracked": 0, "other": True, "streams": streams, "linger": linger, "p": 1 if (streams == 1 or not quick) else 0,
                                 "r": 1, "horizon": 4000})
+    # a remote method that ends with a BaseException which is no Exception (SystemExit): the thread server's connection ends there; the
+    # hook, the tracked resources, the session instance and the socket are judged (the multiplex server's loop itself ends with it, so
+    # there is no running daemon left to judge; what becomes of the worker thread is C18's business)
+    for tracked, untracked in ((0, 0), (2, 1)):
+        out.append({"server": "thread", "ending": "method-exits", "tracked": tracked, "untracked": untracked, "other": True, "p": 1, "r": 1 if quick else 2, "horizon": 4000})
     for ending in (("handshake-then-close", "reset@40") if quick else ("handshake-then-close", "reset@40", "release", "malformed")):
         out.append({"server": "thread", "ending": ending, "tracked": 0, "untracked": 0, "other": True, "order": "a-first", "watch": "pool", "p": 1, "r": 1 if quick else 2, "horizon": 6000})
     return out
